@@ -252,8 +252,15 @@ def model_trace(wl, world):
     nbar = [0] * wl["W"]
     evs = []
     nwr = [0] * wl["W"]
+    failed = set()
     for e in world.events:
         r = e["rank"]
+        if r in failed and e["kind"] in ("write_begin", "write_end") and e["path"] != META:
+            # payload writes of a rank whose take() is already failing: tasks created before the failure still run
+            # for a moment; the model stops the rank at the failure, which is equivalent for everything C02/C03 state
+            continue
+        if e["kind"] == "write_fail":
+            failed.add(r)
         if e["kind"] == "write_begin":
             if e["path"] == META:
                 evs.append((r, CODE["AMetaBegin"]))
